@@ -52,7 +52,7 @@ def transforms_for(rng, case, tier):
                     m["tspan"] = [m["tspan"][0] + tau, m["tspan"][1] + tau]
             yield {"kind": "shiftTime", "tau": tau}, c
     if fn in BOTH:
-        for k in rng.sample(ks[:3], 2):
+        for k in rng.sample(ks[:3], 2) + [rng.choice([F(2**20), F(-(2**30))])]:
             if fn == "valid" and case.get("as_time"):
                 k = F(int(k) if k.denominator == 1 else 5)
             c = copy.deepcopy(case)
@@ -134,6 +134,8 @@ def run(out: Outcome, drv):
             if not std_margin_ok(base):
                 continue
             car = fx.pick_carriers(base, rng)
+            if car[0] == "nd_f4":
+                car = ("nd_f8", *car[1:])       # a shifted value need not be a float32 any more
             for tr, c2 in transforms_for(rng, base, out.tier):
                 if std_margin_ok(c2):
                     items.append((base, tr, c2, car))
